@@ -37,6 +37,163 @@ def is_atomic_type(ct):
 class Sync:
     def __init__(self, tu):
         self.tu = tu
+        # representation independence of boolean flags: a flag is a std::atomic<bool> member, or one bit of an atomic integer
+        # member.  bitwords: (record, member) -> {bit value: canonical flag field}; operations on such a word are decoded into
+        # the same load/store events on the canonical flag fields as operations on std::atomic<bool> members.
+        self.bitwords = {}
+        self.consts = {}          # declaration id -> int: helper parameters bound to a constant at the followed call site
+
+    # ------------------------------------------------------------------ packed flags
+    def int_value(self, e, binds=None):
+        """constant integer value of a mask expression (constants, enumerators, bound helper parameters, | & ~), else None"""
+        tu = self.tu
+        e = tu.strip(e, casts=True) if e is not None else None
+        if e is None:
+            return None
+        k = e.get('kind')
+        if k == 'DeclRefExpr':
+            did = e.get('referencedDecl', {}).get('id')
+            if binds is not None and did in binds:
+                return binds[did]
+            if did in self.consts:
+                return self.consts[did]
+        cv = tu.sd(e).get('cv')
+        if cv is not None and k not in CALLS:
+            try:
+                return int(cv)
+            except ValueError:
+                return None
+        if k == 'BinaryOperator' and e.get('opcode') in ('|', '&', '^'):
+            a, b = (self.int_value(x, binds) for x in tu.kids(e))
+            if a is None or b is None:
+                return None
+            return a | b if e['opcode'] == '|' else a & b if e['opcode'] == '&' else a ^ b
+        if k == 'UnaryOperator' and e.get('opcode') == '~':
+            a = self.int_value(tu.kids(e)[0], binds)
+            return None if a is None else (~a) & 0xFFFFFFFFFFFFFFFF
+        return None
+
+    def word_load(self, e):
+        """(word field) if e is an atomic load of a packed-flag word"""
+        a = self.atomic_op(self.tu.strip(e, casts=True)) if e is not None else None
+        if a is not None and a['op'] == 'load' and a['field'] in self.bitwords:
+            return a['field'], a['order']
+        return None
+
+    def roles_of(self, word, mask):
+        return [fld for bit, fld in sorted(self.bitwords[word].items()) if mask & bit]
+
+    def masked_load(self, n, binds=None):
+        """(flag field | None, order, word) if n is `<load of a packed word> & <mask>`; field None = not exactly one flag"""
+        tu = self.tu
+        if n is None or n.get('kind') != 'BinaryOperator' or n.get('opcode') != '&' or not self.bitwords:
+            return None
+        a, b = tu.kids(n)
+        for x, y in ((a, b), (b, a)):
+            wl = self.word_load(x)
+            if wl is None:
+                continue
+            m = self.int_value(y, binds)
+            roles = self.roles_of(wl[0], m) if m is not None else []
+            return (roles[0] if len(roles) == 1 else None, wl[1], wl[0])
+        return None
+
+    def word_write(self, n, binds=None):
+        """decode a write to a packed-flag word: dict(word, sets=[(flag, value)], order, lms=bool, unknown=bool) or None"""
+        tu = self.tu
+        a = self.atomic_op(n)
+        if a is None or a['field'] not in self.bitwords or a['op'] == 'load':
+            return None
+        word = a['field']
+        s, obj, args = tu.call_parts(n)
+        name = a['name']
+        allbits = 0
+        for bit in self.bitwords[word]:
+            allbits |= bit
+        out = {'word': word, 'sets': [], 'order': a.get('order', SEQ_CST), 'lms': False, 'unknown': False, 'name': name}
+        if name in ('fetch_or', 'operator|='):
+            m = self.int_value(args[0], binds) if args else None
+            if m is None:
+                out['unknown'] = True
+            else:
+                out['sets'] = [(f, True) for f in self.roles_of(word, m)]
+            return out
+        if name in ('fetch_and', 'operator&='):
+            m = self.int_value(args[0], binds) if args else None
+            if m is None:
+                out['unknown'] = True
+            else:
+                out['sets'] = [(f, False) for f in self.roles_of(word, allbits & ~m)]
+            return out
+        if name in ('store', 'operator='):
+            v = tu.strip(args[0], casts=True) if args else None
+            if v is not None and v.get('kind') == 'BinaryOperator' and v.get('opcode') in ('|', '&'):
+                x, y = tu.kids(v)
+                for ld, mk in ((x, y), (y, x)):
+                    wl = self.word_load(ld)
+                    if wl is not None and wl[0] == word:
+                        m = self.int_value(mk, binds)
+                        out['lms'] = True           # value computed from an earlier, separate load of the same word
+                        if m is None:
+                            out['unknown'] = True
+                        elif v['opcode'] == '|':
+                            out['sets'] = [(f, True) for f in self.roles_of(word, m)]
+                        else:
+                            out['sets'] = [(f, False) for f in self.roles_of(word, allbits & ~m)]
+                        return out
+            out['unknown'] = True                   # whole-word store
+            return out
+        out['unknown'] = True                       # exchange / compare_exchange / arithmetic on the word
+        return out
+
+    def flag_test(self, e, flags, binds=None, depth=0):
+        """(flag field, polarity) if the boolean expression e is a test of exactly one flag: an atomic<bool> load, a masked load
+        of a packed word, or a call of a helper whose body is a single return of such a test (mask parameters bound to the
+        constants of the call).  `flags`: the canonical flag fields of interest."""
+        tu = self.tu
+        if e is None or depth > 6:
+            return None
+        pol, atom = self.cond_atom(e)
+        if atom is None:
+            return None
+        a = self.atomic_op(atom)
+        if a is not None and a['op'] == 'load' and a['field'] in flags:
+            return a['field'], pol
+        ml = self.masked_load(atom, binds)
+        if ml is not None:
+            return (ml[0], pol) if ml[0] is not None else None
+        if atom.get('kind') in CALLS:
+            cf = tu.callee_fn(atom)
+            body = tu.body(cf) if cf is not None and not cf.get('dep') else None
+            if body is None:
+                return None
+            stmts = tu.kids(body)
+            if len(stmts) != 1 or stmts[0].get('kind') != 'ReturnStmt' or not tu.kids(stmts[0]):
+                return None
+            ks = tu.kids(atom)[1:]
+            if atom.get('kind') == 'CXXOperatorCallExpr' and len(ks) == len(cf.get('params', [])) + 1:
+                ks = ks[1:]
+            b2 = dict(binds or {})
+            for p_, a_ in zip(cf.get('params', []), ks):
+                v = self.int_value(a_, binds)
+                if v is not None:
+                    b2[p_['id']] = v
+            r = self.flag_test(tu.kids(stmts[0])[0], flags, b2, depth + 1)
+            return None if r is None else (r[0], r[1] if pol else (not r[1]))
+        return None
+
+    def expand(self, e):
+        """CFG element -> list of elements; a write to a packed word that sets/clears several flags becomes one synthetic
+        element per flag (['EV', event]); everything else is returned unchanged"""
+        if e[0] != 'S' or not self.bitwords:
+            return [e]
+        n = self.tu.node(e[1])
+        if n is None or n.get('kind') not in ('CXXMemberCallExpr', 'CXXOperatorCallExpr'):
+            return [e]
+        w = self.word_write(n)
+        if w is None or w['unknown'] or len(w['sets']) <= 1:
+            return [e]
+        return [['EV', ('store', f, v, w['order'], n)] for f, v in w['sets']]
 
     # ------------------------------------------------------------------ expressions
     def field(self, e):
@@ -216,8 +373,9 @@ class Sync:
                 done = False
                 for x, y in ((a, b), (b, a)):
                     y0 = tu.strip(y, casts=True)
-                    if y0 is not None and y0.get('kind') == 'CXXBoolLiteralExpr':
-                        v = bool(y0.get('value'))
+                    if y0 is not None and (y0.get('kind') == 'CXXBoolLiteralExpr' or
+                                           (y0.get('kind') == 'IntegerLiteral' and str(y0.get('value')) == '0')):
+                        v = bool(y0.get('value')) if y0.get('kind') == 'CXXBoolLiteralExpr' else False
                         if (e['opcode'] == '==') != v:
                             pol = not pol
                         e = x
@@ -281,12 +439,30 @@ class Sync:
         tu = self.tu
         if e[0] == 'AD':
             return ('unlock-scope', e[1])
+        if e[0] == 'EV':
+            return e[1]
         if e[0] != 'S':
             return None
         n = tu.node(e[1])
         if n is None:
             return None
         k = n.get('kind')
+        if self.bitwords:
+            ml = self.masked_load(n)
+            if ml is not None:
+                if ml[0] is None:
+                    return ('rmw', sorted(self.bitwords[ml[2]].values())[0], 'test of several / unknown bits of the flag word', n)
+                return ('load', ml[0], ml[1], n)
+            if k in ('CXXMemberCallExpr', 'CXXOperatorCallExpr'):
+                if self.word_load(n) is not None:
+                    return None                 # the whole-word load is decoded at its `& mask`
+                w = self.word_write(n)
+                if w is not None:
+                    if w['unknown'] or len(w['sets']) > 1:
+                        return ('rmw', sorted(self.bitwords[w['word']].values())[0], '%s of the whole flag word' % w['name'], n)
+                    if not w['sets']:
+                        return None             # touches no flag bit
+                    return ('store', w['sets'][0][0], w['sets'][0][1], w['order'], n)
         if k == 'DeclStmt':
             ls = self.lock_decl(n)
             if ls:
@@ -402,6 +578,10 @@ class Hooks:
     def ret_value(self, e, st):
         return None
 
+    def memo_extra(self, n, cf, args):
+        """what, besides the entry state, a callee summary depends on (e.g. constants bound to its parameters)"""
+        return None
+
     def problem(self, msg, n):
         pass
 
@@ -418,6 +598,7 @@ class Inliner:
         self.stack = []
         self.at = None          # (block id, engine state) at the start of the current block of the top-level function
         self.memo = {}
+        self.expand = None      # optional: CFG element -> list of elements (see Sync.expand)
 
     @property
     def depth(self):
@@ -484,8 +665,9 @@ class Inliner:
                     hooks.problem('recursive or too deep helper call chain through %s' % cf['q'], n)
                     return [st]
                 outs = []
+                extra = hooks.memo_extra(n, cf, self.args(n, cf))
                 for rs1 in hooks.pre_call(n, cf, self.args(n, cf), rs):
-                    key = (cf['id'], rs1)
+                    key = (cf['id'], rs1, extra)
                     if key not in self.memo:
                         self.memo[key] = self._run(cf, [rs1], transfer, refine, hooks)[1]
                     for (rs2, rv2, _via) in self.memo[key]:
@@ -496,7 +678,16 @@ class Inliner:
             if n is not None and n.get('kind') == 'ReturnStmt':
                 ks = tu.kids(n)
                 rv = hooks.ret_value(ks[0], rs) if ks else None
-            return [(r, rv) for r in transfer(blk, i, e, rs)]
+            parts = self.expand(e) if self.expand is not None else [e]
+            states = [rs]
+            for pe in parts:
+                nxt = []
+                for s0 in states:
+                    for r in transfer(blk, i, pe, s0):
+                        if r not in nxt:
+                            nxt.append(r)
+                states = nxt
+            return [(r, rv) for r in states]
 
         def rf(blk, si, st):
             rs, rv = st
